@@ -88,6 +88,8 @@ void onAbort(int)
     // an assertion of the code under test fired: report the case as crashed (with the assertion text), the check restarts the driver
     char tail[600];
     char msg[300] = "";
+    if (stderr != RealErr)
+        fflush(stderr); // xassert() printed the assertion text just before abort()
     const int lfd = open(LogPath.c_str(), O_RDONLY);
     if (lfd >= 0) {
         const off_t end = lseek(lfd, 0, SEEK_END);
@@ -253,7 +255,7 @@ std::string URock::WalkIndex(Rock::SwapDir &sd, const int n, const std::vector<s
 void URock::SetCase(const std::string &id)
 {
     CurId = id;
-    if (stderr != RealErr) { if (ftruncate(fileno(stderr), 0)) {} rewind(stderr); }
+    if (stderr != RealErr) { fflush(stderr); if (ftruncate(fileno(stderr), 0)) {} rewind(stderr); }
 }
 
 namespace {
@@ -348,7 +350,9 @@ int main(int argc, char *argv[])
     LogPath = Dir + ".log";
     if (!getenv("U_ROCK_VERBOSE")) {
         // the debugs() stub and xassert() print through `stderr`; keep that in a file (fd 2 stays for the sanitizers)
-        if (FILE *f = fopen(LogPath.c_str(), "w+")) { setvbuf(f, nullptr, _IONBF, 0); stderr = f; }
+        // (fully buffered: the abort handler flushes it; hundreds of tiny writes per image were a fifth of the run time)
+        if (FILE *f = fopen(LogPath.c_str(), "w+")) { setvbuf(f, nullptr, _IOFBF, 1 << 16); stderr = f; }
+        std::cerr.rdbuf(nullptr); // tests/STUB.h reports every call of a stub ("SKIP: ...") on std::cerr: discard
     }
     signal(SIGABRT, onAbort);
 
